@@ -46,29 +46,55 @@ pub(super) struct AluKey {
     a: u32,
     b: u32,
     c: u32,
+    /// Accumulator of a `HornerAcc` op (carried in `intermediate_out`); `None` otherwise.
+    acc: Option<u32>,
 }
 
 impl AluKey {
     /// Builds a dedup key, sorting operands for commutative ops.
+    #[cfg(test)]
     pub(super) fn new(kind: AluOpKind, a: WitnessId, b: WitnessId, c: Option<WitnessId>) -> Self {
+        Self::with_acc(kind, a, b, c, None)
+    }
+
+    /// Like [`Self::new`], but also keys `HornerAcc` ops on their accumulator:
+    /// `out = acc * b + c - a` depends on `acc`, so two steps that only differ in the
+    /// accumulator are different operations.
+    pub(super) fn with_acc(
+        kind: AluOpKind,
+        a: WitnessId,
+        b: WitnessId,
+        c: Option<WitnessId>,
+        acc: Option<WitnessId>,
+    ) -> Self {
         match kind {
             AluOpKind::Add | AluOpKind::Mul => Self {
                 kind,
                 a: a.0.min(b.0),
                 b: a.0.max(b.0),
                 c: 0,
+                acc: None,
             },
             AluOpKind::BoolCheck => Self {
                 kind,
                 a: a.0,
                 b: b.0,
                 c: 0,
+                acc: None,
             },
-            AluOpKind::MulAdd | AluOpKind::HornerAcc => Self {
+            AluOpKind::MulAdd => Self {
                 kind,
                 a: a.0,
                 b: b.0,
                 c: c.unwrap_or(WitnessId(0)).0,
+                acc: None,
+            },
+            AluOpKind::HornerAcc => Self {
+                kind,
+                a: a.0,
+                b: b.0,
+                c: c.unwrap_or(WitnessId(0)).0,
+                acc: acc.map(|id| id.0),
             },
         }
     }
